@@ -53,12 +53,12 @@ var builtinExactArgs = map[string]int64{"new": 1, "len": 1, "cap": 1, "copy": 2,
 
 // r02bTable: audited arity drops, keyed "function|slice", applying only where a fact containing Need holds.
 var r02bTable = map[string]guardedReason{
-	"goose.Ctx.assignStmt|s.Rhs":                                               {"len(s.Lhs) <= 1", "Go typing: an assignment with one left-hand side has exactly one right-hand side"},
-	"goose.Ctx.varSpec|s.Values":                                               {"len(s.Names) <= 1", "Go typing: a var spec with one name has at most one value"},
-	"goose.Ctx.constSpec|spec.Values":                                          {"len(spec.Names) <= 1", "Go typing: a const spec with one name has at most one value"},
-	"goose.Ctx.packageMethod|call.Args":                                        {"\"DPrintf\" == f.Sel.Name", "documented hack in the source: util.DPrintf has no observable behaviour in GooseLang, its variadic arguments are deliberately replaced by #()"},
-	"goose.Ctx.makeSliceExpr|args":                                             {"", "args[0] is only the reported node of the rejection for a wrong argument count"},
-	"goose.Ctx.makeExpr|args":                                                  {"", "make(T, n[, c]): the remaining arguments are consumed by makeSliceExpr, which rejects other counts"},
+	"goose.Ctx.assignStmt|s.Rhs":        {"len(s.Lhs) <= 1", "Go typing: an assignment with one left-hand side has exactly one right-hand side"},
+	"goose.Ctx.varSpec|s.Values":        {"len(s.Names) <= 1", "Go typing: a var spec with one name has at most one value"},
+	"goose.Ctx.constSpec|spec.Values":   {"len(spec.Names) <= 1", "Go typing: a const spec with one name has at most one value"},
+	"goose.Ctx.packageMethod|call.Args": {"\"DPrintf\" == f.Sel.Name", "documented hack in the source: util.DPrintf has no observable behaviour in GooseLang, its variadic arguments are deliberately replaced by #()"},
+	"goose.Ctx.makeSliceExpr|args":      {"", "args[0] is only the reported node of the rejection for a wrong argument count"},
+	"goose.Ctx.makeExpr|args":           {"", "make(T, n[, c]): the remaining arguments are consumed by makeSliceExpr, which rejects other counts"},
 }
 
 func checkR02b(p *Prog, r *Report) {
